@@ -358,7 +358,7 @@ class LineHooks(object):
             if instr_attr_names:
                 offs = set()
                 for ins in dis.get_instructions(code):
-                    if ins.opname in ("LOAD_ATTR", "STORE_ATTR", "LOAD_METHOD") and ins.argval in instr_attr_names:
+                    if instr_attr_names == "ALL" or (ins.opname in ("LOAD_ATTR", "STORE_ATTR", "LOAD_METHOD") and ins.argval in instr_attr_names):
                         offs.add(ins.offset)
                 if offs:
                     self.instr_offsets[code] = offs
